@@ -268,6 +268,23 @@ def gen_case(rnd):
                        "(declare-fun c14b () Bool)\n(declare-fun c14f (Int) Bool)\n(assert (and (> (ite c14b 1 2) 0) (c14f 3)))\n", None))
         probes.append(("parse-with-long-lived-parser",
                        "(set-logic QF_LRA)\n(declare-fun c14r () Real)\n(assert (< c14r (+ 1 2)))\n", None))
+    if g.pct(10):
+        # many relations are analysed first (one large conjunction, or many small queries); then difference-shaped
+        # atoms are probed: whatever bounds the work of an analysis is per call, not per environment
+        T = g.choice([INT, REAL])
+        k_ = lambda v: ("CONST", (T, v if T == INT else Fraction(v)), ())
+        rels = [("LE", (), (sym("c14m%d" % i_, T), k_(i_))) for i_ in range(g.choice([34, 40, 70]))]
+        where = g.rnd.randrange(len(history) + 1)
+        svc = g.choice(["theory", "logic"])
+        if g.pct(50):
+            history.insert(where, (svc, ("AND", (), tuple(rels)), None))
+        else:
+            for r_ in rels:
+                history.insert(where, (svc, r_, None))
+        x_, y_ = sym("c14dx", T), sym("c14dy", T)
+        for dl in (("LT", (), (x_, y_)), ("LE", (), (("MINUS", (), (x_, y_)), k_(3))),
+                   ("EQUALS", (), (("MINUS", (), (x_, y_)), ("ITE", (), (sym("c14dp", BOOL), k_(1), k_(2)))))):
+            probes += [("logic", dl, None), ("theory", dl, None)]
     oob = [g.choice(OOB)] if g.pct(30) else []
     return probe, history, probes, oob
 
